@@ -436,3 +436,105 @@ S.EXTRA_SITES += [
     ("faces2d.export_as_mesh (imperative: index structure)", lambda: gen_export("faces")),
     ("vertex2d.export_as_mesh (imperative: index structure)", lambda: gen_export("verts")),
 ]
+
+# ----------------------------------------------------------------------------------------------------------------
+# round 7: _initialize_attributes (both fields), FlatConnectionFaces.transport, cotan_edge_diagonal
+# ----------------------------------------------------------------------------------------------------------------
+def _kw(call):
+    return {k.arg: k.value for k in call.keywords}
+
+
+def gen_init_attrs(kind):
+    rel, cls = (FACES, "_BaseFrameField2DFaces") if kind == "faces" else (VERTS, "_BaseFrameField2DVertices")
+    fn = load_fn(rel, f"{cls}._initialize_attributes")
+    body = strip(fn.body)
+    lines, seen = [], set()
+    extra = ""
+    for s in body:
+        u = U(s)
+        if isinstance(s, ast.Assign) and U(s.targets[0]) == "self.cot" and isinstance(s.value, ast.Call) and U(s.value.func) in ("cotangent", "attributes.cotangent") \
+                and [U(a) for a in s.value.args] == ["self.mesh"]:
+            kw = _kw(s.value)
+            if set(kw) - {"persistent"}: raise TranslateError(f"_initialize_attributes: cotangent called with {sorted(kw)}")
+            pers = True if "persistent" not in kw else kw["persistent"].value
+            if not isinstance(pers, bool): raise TranslateError("_initialize_attributes: persistent= is not a literal")
+            lines.append(f"  let s := {{ s with cotOnMesh := {'true' if pers else 'false'} }}"); seen.add("cot"); continue
+        if isinstance(s, ast.Assign) and U(s.targets[0]) in ("self.defect", "self.angles", "self.vnormals") and isinstance(s.value, ast.Call):
+            f = U(s.value.func)
+            ok = {"self.defect": ("angle_defects", "ArrayAttribute"), "self.angles": ("attributes.corner_angles",), "self.vnormals": ("attributes.vertex_normals",)}[U(s.targets[0])]
+            if f not in ok: raise TranslateError(f"_initialize_attributes: {U(s.targets[0])} is computed by {f}")
+            if f == "ArrayAttribute" and U(s.value) != "ArrayAttribute(float,len(self.mesh.vertices))": raise TranslateError("defect array is not ArrayAttribute(float, len(vertices))")
+            if f == "attributes.vertex_normals" and U(s.value) != "attributes.vertex_normals(self.mesh,interpolation='angle')": raise TranslateError(f"vertex normals: {U(s.value)}")
+            seen.add(U(s.targets[0])[5:]); continue
+        if isinstance(s, ast.For) and kind == "verts":
+            if not (U(s.iter) == "enumerate(self.mesh.face_corners)" and isinstance(s.target, ast.Tuple) and len(s.target.elts) == 2):
+                raise TranslateError("_initialize_attributes: loop is not over enumerate(self.mesh.face_corners)")
+            ic, c = (U(x) for x in s.target.elts)
+            b = strip(s.body)
+            if not (len(b) == 1 and isinstance(b[0], ast.AugAssign) and isinstance(b[0].op, ast.Add) and U(b[0].target) == f"self.defect[{c}]" and U(b[0].value) == f"self.angles[{ic}]"):
+                raise TranslateError(f"_initialize_attributes: loop body is not self.defect[C] += self.angles[iC]: {U(b[0])[:80]}")
+            extra = ("/-- the loop `for iC, C in enumerate(mesh.face_corners): defect[C] = defect[C] + angles[iC]` (sum of the corner angles at every vertex) -/\n"
+                     "def defectSumsVerts (nV : Nat) (corners : List Nat) (angles : Nat → Rat) : List Rat :=\n"
+                     "  (List.zip (List.range corners.length) corners).foldl (fun d it => d.set it.2 (d.getD it.2 0 + angles it.1)) (List.replicate nV 0)\n")
+            seen.add("defectloop"); continue
+        if isinstance(s, ast.If) and U(s.test) == "self.featisNone" and not s.orelse:
+            b = strip(s.body)
+            a = b[0]
+            if not (isinstance(a, ast.Assign) and U(a.targets[0]) == "self.feat"): raise TranslateError("_initialize_attributes: feat branch does not assign self.feat")
+            call = a.value
+            ran = False
+            if isinstance(call, ast.Call) and isinstance(call.func, ast.Call) and U(call.func.func) == "FeatureEdgeDetector" and [U(x) for x in call.args] == ["self.mesh"]:
+                ctor, ran = call.func, True
+            elif isinstance(call, ast.Call) and U(call.func) == "FeatureEdgeDetector":
+                ctor = call
+                ran = len(b) == 2 and U(b[1]) == "self.feat.run(self.mesh)"
+            else: raise TranslateError(f"_initialize_attributes: feat is not a FeatureEdgeDetector: {U(call)[:80]}")
+            if not ran: raise TranslateError("_initialize_attributes: the default feature detector is not run on the mesh")
+            kw = _kw(ctor)
+            if U(kw.get("only_border")) != "notself.features": raise TranslateError(f"_initialize_attributes: only_border is {U(kw.get('only_border'))}")
+            if kind == "verts":
+                if U(kw.get("corner_order")) != "self.order": raise TranslateError(f"_initialize_attributes: corner_order is {U(kw.get('corner_order'))}")
+                det = "detect (!features) order"
+            else:
+                det = "detect (!features)"
+            lines.append(f"  let s := if s.feat.isNone then {{ s with feat := some ({det}) }} else s"); seen.add("feat"); continue
+        conn_cls = "SurfaceConnectionFaces" if kind == "faces" else "SurfaceConnectionVertices"
+
+        def conn_call(c):
+            if not (isinstance(c, ast.Call) and U(c.func) == conn_cls and c.args and U(c.args[0]) == "self.mesh"): raise TranslateError(f"_initialize_attributes: conn is not {conn_cls}(self.mesh, ..): {U(c)[:80]}")
+            arg = "s.feat" if len(c.args) > 1 and U(c.args[1]) == "self.feat" else ("s.feat" if U(_kw(c).get("feat")) == "self.feat" else "none")
+            if kind == "verts":
+                kw = _kw(c)
+                if U(kw.get("angles")) != "self.angles" or U(kw.get("vnormal")) != "self.vnormals": raise TranslateError("_initialize_attributes: the vertex connection is not given angles= / vnormal=")
+            return f"connect {arg}"
+        if isinstance(s, ast.If) and U(s.test) == "self.connisNone" and not s.orelse and len(strip(s.body)) == 1 and U(strip(s.body)[0].targets[0]) == "self.conn":
+            lines.append(f"  let s := if s.conn.isNone then {{ s with conn := some ({conn_call(strip(s.body)[0].value)}) }} else s"); seen.add("conn"); continue
+        if isinstance(s, ast.Assign) and U(s.targets[0]) == "self.conn" and isinstance(s.value, ast.BoolOp) and isinstance(s.value.op, ast.Or) and U(s.value.values[0]) == "self.conn":
+            lines.append(f"  let s := if s.conn.isNone then {{ s with conn := some ({conn_call(s.value.values[1])}) }} else s"); seen.add("conn"); continue
+        raise TranslateError(f"{cls}._initialize_attributes: statement not recognised: {u[:100]}")
+    need = {"cot", "defect", "feat", "conn"} | ({"angles", "vnormals", "defectloop"} if kind == "verts" else set())
+    if not need <= seen: raise TranslateError(f"{cls}._initialize_attributes: missing {sorted(need - seen)}")
+    if [l for l in lines if "feat :=" in l or "conn :=" in l] != [l for l in lines if "feat :=" in l] + [l for l in lines if "conn :=" in l]:
+        raise TranslateError("_initialize_attributes: the connection is built before the feature set")
+    name = "initializeAttributesFaces" if kind == "faces" else "initializeAttributesVerts"
+    sig = "(detect : Bool → F)" if kind == "faces" else "(detect : Bool → Nat → F) (order : Nat)"
+    txt = (extra + f"/-- `{cls}._initialize_attributes` ({rel}): `cotOnMesh` = is the `cotan` attribute of the MESH (re)computed by this call (`persistent`);\n"
+           f"`detect onlyBorder ..` = the default `FeatureEdgeDetector(only_border=..)` run on the mesh, `connect feat` = the default connection built on `feat` -/\n"
+           f"def {name} {{F C : Type}} {sig} (connect : Option F → C) (features : Bool) (s : AttrSt F C) : AttrSt F C :=\n" + "\n".join(lines) + "\n  s\n")
+    return txt, {"steps": len(lines)}
+
+
+def gen_flat_faces():
+    fn = load_fn(CONN, "FlatConnectionFaces.transport")
+    b = strip(fn.body)
+    if not (len(b) == 1 and isinstance(b[0], ast.Return)): raise TranslateError("FlatConnectionFaces.transport is not a single return")
+    v = ratlit(b[0].value)
+    txt = (f"/-- `FlatConnectionFaces.transport` ({CONN}) -/\ndef flatFacesTransport (iA iB : Nat) : Rat := {v}\n")
+    return txt, {"value": v}
+
+
+S.EXTRA_SITES += [
+    ("faces2d._initialize_attributes (imperative)", lambda: gen_init_attrs("faces")),
+    ("vertex2d._initialize_attributes (imperative)", lambda: gen_init_attrs("verts")),
+    ("connection.FlatConnectionFaces.transport (imperative)", gen_flat_faces),
+]
